@@ -121,6 +121,32 @@ theorem CountInv.mono {s s' : St} (h : CountInv s) (hi : s'.issued = s.issued)
   · rw [hi]; exact h.kDistinct
   · intro e he; rw [hi] at he; rw [hs]; exact h.issuedStatic e he
 
+theorem beginExec_countInv (s : St) (i : Nat) (c : Copy) (hc : s.copies[i]? = some c) (h : CountInv s) :
+    CountInv (beginExec s i c).1 := by
+  have hst : statics (updCopy s.copies i fun c => { c with results := c.results ++ [unknownOf c.name] }) =
+      statics s.copies := statics_updCopy _ _ _ (fun _ => ⟨rfl, rfl⟩)
+  have hlen := sharedLen_updCopy_succ s.copies i
+    (fun c => { c with results := c.results ++ [unknownOf c.name] }) c hc (fun c => by simp)
+  simp only [beginExec]
+  refine ⟨?_, ?_, ?_⟩
+  · intro e he
+    simp only [List.mem_cons] at he
+    simp only [hlen]
+    rcases he with rfl | he
+    · exact Nat.lt_succ_self _
+    · exact Nat.lt_succ_of_lt (h.kLt e he)
+  · simp only [List.pairwise_cons]
+    refine ⟨?_, h.kDistinct⟩
+    intro a ha
+    have := h.kLt a ha
+    omega
+  · intro e he
+    simp only [List.mem_cons] at he
+    simp only [hst]
+    rcases he with rfl | he
+    · exact ⟨c.pfx, mem_statics_of_getElem? hc, rfl⟩
+    · exact h.issuedStatic e he
+
 theorem step_countInv (s : St) (ev : Event) (h : CountInv s) : CountInv (step s ev).1 := by
   cases ev with
   | start i =>
@@ -131,28 +157,7 @@ theorem step_countInv (s : St) (ev : Event) (h : CountInv s) : CountInv (step s 
       simp only
       split
       · exact h
-      · have hst : statics (updCopy s.copies i fun c => { c with results := c.results ++ [unknownOf c.name] }) =
-            statics s.copies := statics_updCopy _ _ _ (fun _ => ⟨rfl, rfl⟩)
-        have hlen := sharedLen_updCopy_succ s.copies i
-          (fun c => { c with results := c.results ++ [unknownOf c.name] }) c hc (fun c => by simp)
-        refine ⟨?_, ?_, ?_⟩
-        · intro e he
-          simp only [List.mem_cons] at he
-          simp only [hlen]
-          rcases he with rfl | he
-          · exact Nat.lt_succ_self _
-          · exact Nat.lt_succ_of_lt (h.kLt e he)
-        · simp only [List.pairwise_cons]
-          refine ⟨?_, h.kDistinct⟩
-          intro a ha
-          have := h.kLt a ha
-          omega
-        · intro e he
-          simp only [List.mem_cons] at he
-          simp only [hst]
-          rcases he with rfl | he
-          · exact ⟨c.pfx, mem_statics_of_getElem? hc, rfl⟩
-          · exact h.issuedStatic e he
+      · exact beginExec_countInv s i c hc h
   | finish j o =>
     simp only [step, finish]
     cases hp : s.pending[j]? with
@@ -183,20 +188,31 @@ theorem step_countInv (s : St) (ev : Event) (h : CountInv s) : CountInv (step s 
         apply sharedLen_updCopy_ge
         intro c0 _; simp
       · exact h
-  | pre i o =>
-    simp only [step, preStep]
+  | create i o =>
+    simp only [step, createStep]
     cases hc : s.copies[i]? with
     | none => exact h
     | some c =>
       simp only
-      cases hs : settle (c.results ++ [unknownOf c.preName]) s.job c.preName (uidOf c.prePfx c.results.length) o with
-      | error err => exact h
-      | ok r => exact h.mono rfl rfl (Nat.le_refl _)
+      split
+      · exact h
+      · cases hs : settle (c.results ++ [unknownOf c.preName]) s.job c.preName (uidOf c.prePfx c.results.length) o with
+        | error err => exact h
+        | ok r =>
+          simp only
+          split
+          · exact beginExec_countInv _ i c hc (h.mono rfl rfl (Nat.le_refl _))
+          · refine h.mono rfl (statics_updCopy _ _ _ (fun _ => ⟨rfl, rfl⟩)) ?_
+            apply sharedLen_updCopy_ge
+            intro c0 _; simp
 
 theorem run_countInv (s : St) (evs : List Event) (h : CountInv s) : CountInv (run s evs).1 := by
   induction evs generalizing s with
   | nil => exact h
   | cons e es ih => simp only [run]; exact ih _ (step_countInv s e h)
+
+theorem statics_beginExec (s : St) (i : Nat) (c : Copy) : statics (beginExec s i c).1.copies = statics s.copies :=
+  statics_updCopy _ _ _ (fun _ => ⟨rfl, rfl⟩)
 
 theorem statics_step (s : St) (ev : Event) : statics (step s ev).1.copies = statics s.copies := by
   cases ev with
@@ -204,7 +220,7 @@ theorem statics_step (s : St) (ev : Event) : statics (step s ev).1.copies = stat
     simp only [step, start]
     cases hc : s.copies[i]? with
     | none => rfl
-    | some c => simp only; split; rfl; exact statics_updCopy _ _ _ (fun _ => ⟨rfl, rfl⟩)
+    | some c => simp only; split; rfl; exact statics_beginExec s i c
   | finish j o =>
     simp only [step, finish]
     cases hp : s.pending[j]? with
@@ -223,15 +239,21 @@ theorem statics_step (s : St) (ev : Event) : statics (step s ev).1.copies = stat
     cases hc : s.copies[i]? with
     | none => rfl
     | some c => simp only; split; exact statics_updCopy _ _ _ (fun _ => ⟨rfl, rfl⟩); rfl
-  | pre i o =>
-    simp only [step, preStep]
+  | create i o =>
+    simp only [step, createStep]
     cases hc : s.copies[i]? with
     | none => rfl
     | some c =>
       simp only
-      cases hs : settle (c.results ++ [unknownOf c.preName]) s.job c.preName (uidOf c.prePfx c.results.length) o with
-      | error err => rfl
-      | ok r => rfl
+      split
+      · rfl
+      · cases hs : settle (c.results ++ [unknownOf c.preName]) s.job c.preName (uidOf c.prePfx c.results.length) o with
+        | error err => rfl
+        | ok r =>
+          simp only
+          split
+          · exact statics_beginExec _ i c
+          · exact statics_updCopy _ _ _ (fun _ => ⟨rfl, rfl⟩)
 
 theorem statics_run (s : St) (evs : List Event) : statics (run s evs).1.copies = statics s.copies := by
   induction evs generalizing s with
@@ -341,5 +363,570 @@ theorem contains_append_false {l1 l2 : List String} {a : String}
   rw [Bool.eq_false_iff] at *
   simp only [ne_eq, List.contains_iff_mem, List.mem_append] at *
   rintro (h | h); exact h1 h; exact h2 h
+
+/-! ### per-copy facts: static projections and own result counts along steps -/
+
+theorem map_updCopy {α : Type} (g : Copy → α) (cs : List Copy) (i : Nat) (f : Copy → Copy)
+    (hf : ∀ c, g (f c) = g c) : (updCopy cs i f).map g = cs.map g := by
+  induction cs generalizing i with
+  | nil => rfl
+  | cons c rest ih =>
+    cases i with
+    | zero => simp [updCopy, hf c]
+    | succ i => simp only [updCopy, List.map_cons]; rw [ih]
+
+/-- any projection of the copies that ignores `results` is constant along steps -/
+theorem map_step {α : Type} (g : Copy → α) (hg : ∀ (c : Copy) (rs : List Result), g { c with results := rs } = g c)
+    (s : St) (ev : Event) : (step s ev).1.copies.map g = s.copies.map g := by
+  cases ev with
+  | start i =>
+    simp only [step, start]
+    cases hc : s.copies[i]? with
+    | none => rfl
+    | some c => simp only; split; rfl; exact map_updCopy g _ _ _ (fun c => hg c _)
+  | finish j o =>
+    simp only [step, finish]
+    cases hp : s.pending[j]? with
+    | none => rfl
+    | some e =>
+      simp only
+      cases hc : s.copies[e.copy]? with
+      | none => rfl
+      | some c =>
+        simp only
+        cases hs : settle c.results s.job e.name e.uid o with
+        | error err => rfl
+        | ok r => exact map_updCopy g _ _ _ (fun c => hg c _)
+  | replay i prev =>
+    simp only [step, replayStep]
+    cases hc : s.copies[i]? with
+    | none => rfl
+    | some c => simp only; split; exact map_updCopy g _ _ _ (fun c => hg c _); rfl
+  | create i o =>
+    simp only [step, createStep]
+    cases hc : s.copies[i]? with
+    | none => rfl
+    | some c =>
+      simp only
+      split
+      · rfl
+      · cases hs : settle (c.results ++ [unknownOf c.preName]) s.job c.preName (uidOf c.prePfx c.results.length) o with
+        | error err => rfl
+        | ok r =>
+          simp only
+          split
+          · exact map_updCopy g _ _ _ (fun c => hg c _)
+          · exact map_updCopy g _ _ _ (fun c => hg c _)
+
+theorem map_run {α : Type} (g : Copy → α) (hg : ∀ (c : Copy) (rs : List Result), g { c with results := rs } = g c)
+    (s : St) (evs : List Event) : (run s evs).1.copies.map g = s.copies.map g := by
+  induction evs generalizing s with
+  | nil => rfl
+  | cons e es ih => simp only [run]; rw [ih, map_step g hg]
+
+theorem getElem?_updCopy_ne (cs : List Copy) (i j : Nat) (f : Copy → Copy) (h : j ≠ i) :
+    (updCopy cs i f)[j]? = cs[j]? := by
+  induction cs generalizing i j with
+  | nil => rfl
+  | cons c rest ih =>
+    cases i with
+    | zero =>
+      cases j with
+      | zero => exact absurd rfl h
+      | succ j => simp [updCopy]
+    | succ i =>
+      cases j with
+      | zero => simp [updCopy]
+      | succ j => simp only [updCopy, List.getElem?_cons_succ]; exact ih i j (by omega)
+
+theorem getElem?_updCopy_eq (cs : List Copy) (i : Nat) (f : Copy → Copy) :
+    (updCopy cs i f)[i]? = cs[i]?.map f := by
+  induction cs generalizing i with
+  | nil => rfl
+  | cons c rest ih =>
+    cases i with
+    | zero => simp [updCopy]
+    | succ i => simp only [updCopy, List.getElem?_cons_succ]; exact ih i
+
+/-- own result count of copy `j` -/
+def lenAt (cs : List Copy) (j : Nat) : Option Nat := cs[j]?.map (fun c => c.results.length)
+
+def LenMono (cs cs' : List Copy) : Prop := ∀ j n, lenAt cs j = some n → ∃ n', lenAt cs' j = some n' ∧ n ≤ n'
+
+theorem LenMono.refl (cs : List Copy) : LenMono cs cs := fun _ n h => ⟨n, h, Nat.le_refl _⟩
+
+theorem LenMono.trans {a b c : List Copy} (h1 : LenMono a b) (h2 : LenMono b c) : LenMono a c := by
+  intro j n h
+  obtain ⟨n1, h3, h4⟩ := h1 j n h
+  obtain ⟨n2, h5, h6⟩ := h2 j n1 h3
+  exact ⟨n2, h5, Nat.le_trans h4 h6⟩
+
+theorem lenMono_updCopy (cs : List Copy) (i : Nat) (f : Copy → Copy)
+    (hf : ∀ c0, cs[i]? = some c0 → c0.results.length ≤ (f c0).results.length) : LenMono cs (updCopy cs i f) := by
+  intro j n h
+  unfold lenAt at *
+  by_cases hj : j = i
+  · subst hj
+    rw [getElem?_updCopy_eq]
+    cases hc : cs[j]? with
+    | none => rw [hc] at h; cases h
+    | some c0 =>
+      rw [hc] at h; simp only [Option.map_some, Option.some.injEq] at h
+      exact ⟨(f c0).results.length, rfl, by have := hf c0 hc; omega⟩
+  · rw [getElem?_updCopy_ne _ _ _ _ hj]; exact ⟨n, h, Nat.le_refl _⟩
+
+theorem lenMono_step (s : St) (ev : Event) : LenMono s.copies (step s ev).1.copies := by
+  cases ev with
+  | start i =>
+    simp only [step, start]
+    cases hc : s.copies[i]? with
+    | none => exact LenMono.refl _
+    | some c =>
+      simp only; split
+      · exact LenMono.refl _
+      · exact lenMono_updCopy _ _ _ (fun c0 _ => by simp)
+  | finish j o =>
+    simp only [step, finish]
+    cases hp : s.pending[j]? with
+    | none => exact LenMono.refl _
+    | some e =>
+      simp only
+      cases hc : s.copies[e.copy]? with
+      | none => exact LenMono.refl _
+      | some c =>
+        simp only
+        cases hs : settle c.results s.job e.name e.uid o with
+        | error err => exact LenMono.refl _
+        | ok r =>
+          apply lenMono_updCopy
+          intro c0 h0; rw [hc] at h0; cases h0
+          simp only [settle_length hs]; exact Nat.le_refl _
+  | replay i prev =>
+    simp only [step, replayStep]
+    cases hc : s.copies[i]? with
+    | none => exact LenMono.refl _
+    | some c =>
+      simp only; split
+      · exact lenMono_updCopy _ _ _ (fun c0 _ => by simp)
+      · exact LenMono.refl _
+  | create i o =>
+    simp only [step, createStep]
+    cases hc : s.copies[i]? with
+    | none => exact LenMono.refl _
+    | some c =>
+      simp only; split
+      · exact LenMono.refl _
+      · cases hs : settle (c.results ++ [unknownOf c.preName]) s.job c.preName (uidOf c.prePfx c.results.length) o with
+        | error err => exact LenMono.refl _
+        | ok r =>
+          simp only; split
+          · exact lenMono_updCopy _ _ _ (fun c0 _ => by simp)
+          · exact lenMono_updCopy _ _ _ (fun c0 _ => by simp)
+
+
+/-! ### creation pre-steps -/
+
+def preStatics (cs : List Copy) : List (String × String) := cs.map (fun c => (c.preName, c.prePfx))
+
+/-- the pre-steps of one copy were started with strictly fewer own results than the copy holds now, and
+with pairwise different own result counts -/
+structure PreInv (s : St) : Prop where
+  bound : ∀ e ∈ s.preIssued, (∃ n, lenAt s.copies e.copy = some n ∧ e.k < n) ∧
+            ∃ p, (preStatics s.copies)[e.copy]? = some (e.name, p) ∧ e.uid = uidOf p e.k
+  distinct : s.preIssued.Pairwise (fun a b => a.copy = b.copy → a.k ≠ b.k)
+
+theorem preStatics_step (s : St) (ev : Event) : preStatics (step s ev).1.copies = preStatics s.copies :=
+  map_step _ (fun _ _ => rfl) s ev
+
+theorem PreInv.mono {s s' : St} (h : PreInv s) (hp : s'.preIssued = s.preIssued)
+    (hst : preStatics s'.copies = preStatics s.copies) (hl : LenMono s.copies s'.copies) : PreInv s' := by
+  refine ⟨?_, by rw [hp]; exact h.distinct⟩
+  intro e he; rw [hp] at he
+  obtain ⟨⟨n, hn, hk⟩, hs⟩ := h.bound e he
+  obtain ⟨n', hn', hle⟩ := hl _ _ hn
+  exact ⟨⟨n', hn', by omega⟩, by rw [hst]; exact hs⟩
+
+/-- what a creation attempt does to the ghost list and to the own result count of its copy -/
+theorem createStep_spec (s : St) (i : Nat) (o : Outcome) :
+    (createStep s i o).1.preIssued = s.preIssued ∨
+    ∃ c, s.copies[i]? = some c ∧
+      (createStep s i o).1.preIssued =
+        { copy := i, k := c.results.length, name := c.preName, uid := uidOf c.prePfx c.results.length } :: s.preIssued ∧
+      lenAt (createStep s i o).1.copies i = some (c.results.length + 1) := by
+  simp only [createStep]
+  cases hc : s.copies[i]? with
+  | none => exact Or.inl rfl
+  | some c =>
+    simp only
+    split
+    · exact Or.inl rfl
+    · cases hs : settle (c.results ++ [unknownOf c.preName]) s.job c.preName (uidOf c.prePfx c.results.length) o with
+      | error err => exact Or.inl rfl
+      | ok r =>
+        right
+        refine ⟨c, rfl, ?_⟩
+        have hlen : r.results.length = c.results.length + 1 := by
+          rw [settle_length hs]; simp
+        simp only
+        split
+        · refine ⟨rfl, ?_⟩
+          simp only [beginExec, lenAt, getElem?_updCopy_eq, hc, Option.map_some, List.length_append,
+            List.length_cons, List.length_nil]
+        · refine ⟨rfl, ?_⟩
+          simp only [lenAt, getElem?_updCopy_eq, hc, Option.map_some, List.length_append, List.length_drop, hlen]
+          congr 1; omega
+
+theorem step_preInv (s : St) (ev : Event) (h : PreInv s) : PreInv (step s ev).1 := by
+  have hst := preStatics_step s ev
+  have hl := lenMono_step s ev
+  cases ev with
+  | start i =>
+    refine h.mono ?_ hst hl
+    simp only [step, start]
+    cases hc : s.copies[i]? with
+    | none => rfl
+    | some c => simp only; split <;> rfl
+  | finish j o =>
+    refine h.mono ?_ hst hl
+    simp only [step, finish]
+    cases hp : s.pending[j]? with
+    | none => rfl
+    | some e =>
+      simp only
+      cases hc : s.copies[e.copy]? with
+      | none => rfl
+      | some c =>
+        simp only
+        cases hs : settle c.results s.job e.name e.uid o with
+        | error err => rfl
+        | ok r => rfl
+  | replay i prev =>
+    refine h.mono ?_ hst hl
+    simp only [step, replayStep]
+    cases hc : s.copies[i]? with
+    | none => rfl
+    | some c => simp only; split <;> rfl
+  | create i o =>
+    simp only [step] at hst hl ⊢
+    rcases createStep_spec s i o with hp | ⟨c, hc, hp, hlen⟩
+    · exact h.mono hp hst hl
+    · refine ⟨?_, ?_⟩
+      · intro e he
+        rw [hp] at he
+        rcases List.mem_cons.mp he with rfl | he
+        · refine ⟨⟨_, hlen, Nat.lt_succ_self _⟩, c.prePfx, ?_, rfl⟩
+          rw [hst]; simp only [preStatics, List.getElem?_map, hc, Option.map_some]
+        · obtain ⟨⟨n, hn, hk⟩, hs⟩ := h.bound e he
+          obtain ⟨n', hn', hle⟩ := hl _ _ hn
+          exact ⟨⟨n', hn', by omega⟩, by rw [hst]; exact hs⟩
+      · rw [hp, List.pairwise_cons]
+        refine ⟨?_, h.distinct⟩
+        intro a ha hcopy
+        obtain ⟨⟨n, hn, hk⟩, _⟩ := h.bound a ha
+        simp only at hcopy
+        rw [← hcopy] at hn
+        simp only [lenAt, hc, Option.map_some, Option.some.injEq] at hn
+        simp only; omega
+
+theorem run_preInv (s : St) (evs : List Event) (h : PreInv s) : PreInv (run s evs).1 := by
+  induction evs generalizing s with
+  | nil => exact h
+  | cons e es ih => simp only [run]; exact ih _ (step_preInv s e h)
+
+theorem preStatics_run (s : St) (evs : List Event) : preStatics (run s evs).1.copies = preStatics s.copies :=
+  map_run _ (fun _ _ => rfl) s evs
+
+/-- the pre-nodes of different copies (different workers) have different names -/
+def PreNamesInj (cs : List Copy) : Prop :=
+  ∀ (i j : Nat) (p q : String × String), (preStatics cs)[i]? = some p → (preStatics cs)[j]? = some q → p.1 = q.1 → i = j
+
+theorem pre_ids_nodup_of_preInv {s : St} (h : PreInv s) (hn : PreNamesInj s.copies) :
+    (s.preIssued.map (fun e => (e.name, e.uid))).Nodup := by
+  rw [List.Nodup, List.pairwise_map]
+  refine List.Pairwise.imp_of_mem ?_ h.distinct
+  intro a b ha hb hk heq
+  obtain ⟨_, p, hp, hu⟩ := h.bound a ha
+  obtain ⟨_, q, hq, hv⟩ := h.bound b hb
+  simp only [Prod.mk.injEq] at heq
+  have hcopy : a.copy = b.copy := hn _ _ _ _ hp hq heq.1
+  rw [hcopy] at hp
+  rw [hp] at hq
+  simp only [Option.some.injEq, Prod.mk.injEq] at hq
+  rw [hu, hv, hq.2] at heq
+  exact hk hcopy (uidOf_inj q heq.2)
+
+/-! ### no pending execution has a job record yet -/
+
+def IdIn (job : List JobRes) (n u : String) : Prop := ∃ y ∈ job, y.name = n ∧ y.uid = u
+
+theorem warnFirst_ids (n u : String) (job : List JobRes) (x : JobRes) (hx : x ∈ warnFirst n u job) :
+    IdIn job x.name x.uid := by
+  induction job with
+  | nil => simp [warnFirst] at hx
+  | cons y ys ih =>
+    unfold warnFirst at hx
+    split at hx
+    · rcases List.mem_cons.mp hx with rfl | hx
+      · exact ⟨y, List.mem_cons_self, rfl, rfl⟩
+      · exact ⟨x, List.mem_cons_of_mem _ hx, rfl, rfl⟩
+    · rcases List.mem_cons.mp hx with rfl | hx
+      · exact ⟨x, List.mem_cons_self, rfl, rfl⟩
+      · obtain ⟨z, hz, h1, h2⟩ := ih hx
+        exact ⟨z, List.mem_cons_of_mem _ hz, h1, h2⟩
+
+theorem arrive_ids (job : List JobRes) (n u : String) (o : Outcome) (x : JobRes) (hx : x ∈ arrive job n u o) :
+    IdIn job x.name x.uid ∨ (x.name = n ∧ x.uid = u) := by
+  cases o with
+  | never => exact Or.inl ⟨x, hx, rfl, rfl⟩
+  | reported st t d =>
+    simp only [arrive, List.mem_append, List.mem_singleton] at hx
+    rcases hx with hx | rfl
+    · exact Or.inl ⟨x, hx, rfl, rfl⟩
+    · exact Or.inr ⟨rfl, rfl⟩
+
+theorem record_ids {results : List Result} {job : List JobRes} {n u : String} {y : JobRes} {r : Settled}
+    (h : record results job n u y = .ok r) (x : JobRes) (hx : x ∈ r.job) : IdIn job x.name x.uid := by
+  unfold record at h
+  simp only at h
+  split at h
+  · cases h
+    simp only at hx
+    split at hx
+    · exact warnFirst_ids _ _ _ _ hx
+    · exact ⟨x, hx, rfl, rfl⟩
+  · cases h
+
+/-- the job records after the polling part carry identifiers of earlier records or of this very execution -/
+theorem settle_ids {results : List Result} {job : List JobRes} {n u : String} {o : Outcome} {r : Settled}
+    (h : settle results job n u o = .ok r) (x : JobRes) (hx : x ∈ r.job) :
+    IdIn job x.name x.uid ∨ (x.name = n ∧ x.uid = u) := by
+  have lift : ∀ {j : List JobRes} {a b : String}, IdIn (arrive job n u o) a b →
+      IdIn job a b ∨ (a = n ∧ b = u) := by
+    intro j a b ⟨y, hy, h1, h2⟩
+    rcases arrive_ids job n u o y hy with ⟨z, hz, h3, h4⟩ | ⟨h3, h4⟩
+    · exact Or.inl ⟨z, hz, h3.trans h1, h4.trans h2⟩
+    · exact Or.inr ⟨h1 ▸ h3, h2 ▸ h4⟩
+  unfold settle at h
+  simp only at h
+  split at h
+  · rename_i y hy
+    by_cases hd : (o.delay == 0) = true
+    · simp only [hd, if_true] at h
+      cases hr : record results (arrive job n u o) n u y with
+      | error e => rw [hr] at h; cases h
+      | ok r0 =>
+        rw [hr] at h; simp only [Except.map] at h; cases h
+        exact lift (j := job) (record_ids hr x hx)
+    · simp only [hd, Bool.false_eq_true, if_false] at h
+      cases hr : record results job n u y with
+      | error e => rw [hr] at h; cases h
+      | ok r0 =>
+        rw [hr] at h; simp only [Except.map] at h; cases h
+        simp only at hx
+        rcases arrive_ids r0.job n u o x hx with ⟨z, hz, h1, h2⟩ | h'
+        · obtain ⟨w, hw, h3, h4⟩ := record_ids hr z hz
+          exact Or.inl ⟨w, hw, h3.trans h1, h4.trans h2⟩
+        · exact Or.inr h'
+  · split at h
+    · split at h
+      · exact lift (j := job) (record_ids h x hx)
+      · cases h; exact arrive_ids job n u o x hx
+    · cases h; exact arrive_ids job n u o x hx
+
+def copyNames (cs : List Copy) : List String := cs.map (fun c => c.name)
+def preNames (cs : List Copy) : List String := cs.map (fun c => c.preName)
+/-- the pre-nodes are named differently from the nodes of the class -/
+def PreSep (cs : List Copy) : Prop := ∀ p ∈ preNames cs, p ∉ copyNames cs
+
+structure ReadInv (s : St) : Prop where
+  count : CountInv s
+  pendIssued : ∀ e ∈ s.pending, e ∈ s.issued
+  pendK : s.pending.Pairwise (fun a b => a.k ≠ b.k)
+  jobIds : ∀ x ∈ s.job, (∃ e ∈ s.issued, e.name = x.name ∧ e.uid = x.uid) ∨ x.name ∈ preNames s.copies
+  pendFresh : ∀ e ∈ s.pending, ¬ IdIn s.job e.name e.uid
+
+theorem issued_name_mem {s : St} (h : CountInv s) {e : Exec} (he : e ∈ s.issued) : e.name ∈ copyNames s.copies := by
+  obtain ⟨p, hp, _⟩ := h.issuedStatic e he
+  simp only [statics, List.mem_map] at hp
+  obtain ⟨c, hc, heq⟩ := hp
+  simp only [Prod.mk.injEq] at heq
+  exact List.mem_map.mpr ⟨c, hc, heq.1⟩
+
+theorem beginExec_readInv (s : St) (i : Nat) (c : Copy) (hc : s.copies[i]? = some c)
+    (hcl : ClassOK s.copies) (hsep : PreSep s.copies) (h : ReadInv s) : ReadInv (beginExec s i c).1 := by
+  have hcount := beginExec_countInv s i c hc h.count
+  have hpre : preNames (beginExec s i c).1.copies = preNames s.copies := map_updCopy _ _ _ _ (fun _ => rfl)
+  have hnod := ids_nodup_of_countInv hcount (by unfold ClassOK; rw [statics_beginExec]; exact hcl)
+  refine ⟨hcount, ?_, ?_, ?_, ?_⟩
+  · intro e he
+    simp only [beginExec, List.mem_append, List.mem_singleton] at he
+    simp only [beginExec, List.mem_cons]
+    rcases he with he | rfl
+    · exact Or.inr (h.pendIssued e he)
+    · exact Or.inl rfl
+  · simp only [beginExec]
+    refine List.pairwise_append.mpr ⟨h.pendK, List.pairwise_singleton _ _, ?_⟩
+    intro a ha b hb
+    rw [List.mem_singleton] at hb; subst hb
+    have := h.count.kLt a (h.pendIssued a ha)
+    simp only; omega
+  · intro x hx
+    rw [hpre]
+    rcases h.jobIds x hx with ⟨e, he, h1, h2⟩ | hp
+    · exact Or.inl ⟨e, by simp only [beginExec, List.mem_cons]; exact Or.inr he, h1, h2⟩
+    · exact Or.inr hp
+  · intro e he
+    simp only [beginExec, List.mem_append, List.mem_singleton] at he
+    rcases he with he | rfl
+    · exact h.pendFresh e he
+    · rintro ⟨y, hy, h1, h2⟩
+      simp only [beginExec] at hy
+      rcases h.jobIds y hy with ⟨e0, he0, h3, h4⟩ | hp
+      · simp only [beginExec, List.map_cons, List.nodup_cons] at hnod
+        apply hnod.1
+        exact List.mem_map.mpr ⟨e0, he0, by rw [h3, h4, h1, h2]⟩
+      · apply hsep _ hp
+        rw [h1]
+        exact List.mem_map.mpr ⟨c, List.mem_of_getElem? hc, rfl⟩
+
+theorem ids_ne_of_k_ne {s : St} (h : CountInv s) (hcl : ClassOK s.copies) {a b : Exec} (ha : a ∈ s.issued)
+    (hb : b ∈ s.issued) (hk : a.k ≠ b.k) : ¬ (a.name = b.name ∧ a.uid = b.uid) := by
+  intro ⟨hn, hu⟩
+  obtain ⟨p, hp, hpu⟩ := h.issuedStatic a ha
+  obtain ⟨q, hq, hqu⟩ := h.issuedStatic b hb
+  have hpq : p = q := hcl _ hp _ hq hn
+  subst hpq
+  rw [hpu, hqu] at hu
+  exact hk (uidOf_inj p hu)
+
+theorem pairwise_getElem?_ne {α : Type} {R : α → α → Prop} (hsym : ∀ a b, R a b → R b a) {l : List α}
+    (h : l.Pairwise R) {i j : Nat} {a b : α} (hi : l[i]? = some a) (hj : l[j]? = some b) (hne : i ≠ j) : R a b := by
+  obtain ⟨hi', rfl⟩ := List.getElem?_eq_some_iff.mp hi
+  obtain ⟨hj', rfl⟩ := List.getElem?_eq_some_iff.mp hj
+  rw [List.pairwise_iff_getElem] at h
+  rcases Nat.lt_or_gt_of_ne hne with hlt | hgt
+  · exact h i j hi' hj' hlt
+  · exact hsym _ _ (h j i hj' hi' hgt)
+
+theorem ReadInv.mono {s s' : St} (h : ReadInv s) (hc : CountInv s') (hi : s'.issued = s.issued)
+    (hp : s'.pending = s.pending) (hj : s'.job = s.job) (hn : preNames s'.copies = preNames s.copies) : ReadInv s' := by
+  refine ⟨hc, ?_, ?_, ?_, ?_⟩
+  · rw [hp, hi]; exact h.pendIssued
+  · rw [hp]; exact h.pendK
+  · rw [hj, hi, hn]; exact h.jobIds
+  · rw [hp, hj]; exact h.pendFresh
+
+theorem preNames_step (s : St) (ev : Event) : preNames (step s ev).1.copies = preNames s.copies :=
+  map_step _ (fun _ _ => rfl) s ev
+
+theorem copyNames_step (s : St) (ev : Event) : copyNames (step s ev).1.copies = copyNames s.copies :=
+  map_step _ (fun _ _ => rfl) s ev
+
+theorem step_readInv (s : St) (ev : Event) (hcl : ClassOK s.copies) (hsep : PreSep s.copies) (h : ReadInv s) :
+    ReadInv (step s ev).1 := by
+  have hcount := step_countInv s ev h.count
+  have hpn := preNames_step s ev
+  cases ev with
+  | start i =>
+    simp only [step, start] at hcount hpn ⊢
+    cases hc : s.copies[i]? with
+    | none => exact h
+    | some c =>
+      simp only
+      split
+      · exact h
+      · exact beginExec_readInv s i c hc hcl hsep h
+  | replay i prev =>
+    simp only [step, replayStep] at hcount hpn ⊢
+    cases hc : s.copies[i]? with
+    | none => exact h
+    | some c =>
+      simp only [hc] at hcount hpn ⊢
+      split
+      · rename_i he; simp only [he, if_true] at hcount hpn
+        exact h.mono hcount rfl rfl rfl hpn
+      · exact h
+  | finish j o =>
+    simp only [step, finish] at hcount hpn ⊢
+    cases hp : s.pending[j]? with
+    | none => exact h
+    | some e =>
+      simp only [hp] at hcount hpn ⊢
+      cases hc : s.copies[e.copy]? with
+      | none => exact h
+      | some c =>
+        simp only [hc] at hcount hpn ⊢
+        cases hs : settle c.results s.job e.name e.uid o with
+        | error err => exact h
+        | ok r =>
+          simp only [hs] at hcount hpn ⊢
+          have he : e ∈ s.pending := List.mem_of_getElem? hp
+          refine ⟨hcount, ?_, ?_, ?_, ?_⟩
+          · intro e' he'; exact h.pendIssued e' (List.mem_of_mem_eraseIdx he')
+          · exact List.Pairwise.sublist (List.eraseIdx_sublist _ _) h.pendK
+          · intro x hx
+            simp only at hx
+            rw [hpn]
+            rcases settle_ids hs x hx with ⟨y, hy, h1, h2⟩ | ⟨h1, h2⟩
+            · rcases h.jobIds y hy with ⟨e0, he0, h3, h4⟩ | hp'
+              · exact Or.inl ⟨e0, he0, h3.trans h1, h4.trans h2⟩
+              · exact Or.inr (h1 ▸ hp')
+            · exact Or.inl ⟨e, h.pendIssued e he, h1.symm, h2.symm⟩
+          · intro e' he' ⟨y, hy, h1, h2⟩
+            simp only at hy
+            have he'p : e' ∈ s.pending := List.mem_of_mem_eraseIdx he'
+            rcases settle_ids hs y hy with ⟨z, hz, h3, h4⟩ | ⟨h3, h4⟩
+            · exact h.pendFresh e' he'p ⟨z, hz, h3.trans h1, h4.trans h2⟩
+            · obtain ⟨i, hij, hi⟩ := List.mem_eraseIdx_iff_getElem?.mp he'
+              have hk : e'.k ≠ e.k := pairwise_getElem?_ne (fun _ _ hab => Ne.symm hab) h.pendK hi hp hij
+              exact ids_ne_of_k_ne h.count hcl (h.pendIssued e' he'p) (h.pendIssued e he) hk
+                ⟨h1.symm.trans h3, h2.symm.trans h4⟩
+  | create i o =>
+    simp only [step, createStep] at hcount hpn ⊢
+    cases hc : s.copies[i]? with
+    | none => exact h
+    | some c =>
+      simp only [hc] at hcount hpn ⊢
+      split
+      · exact h
+      · rename_i hbusy
+        simp only [hbusy, Bool.false_eq_true, if_false] at hcount hpn
+        cases hs : settle (c.results ++ [unknownOf c.preName]) s.job c.preName (uidOf c.prePfx c.results.length) o with
+        | error err => exact h
+        | ok r =>
+          simp only [hs] at hcount hpn ⊢
+          have hcmem : c ∈ s.copies := List.mem_of_getElem? hc
+          -- the state after the pre-step alone
+          have h1 : ReadInv ({ s with job := r.job, preIssued := (⟨i, c.results.length, c.preName,
+              uidOf c.prePfx c.results.length⟩ : Exec) :: s.preIssued } : St) := by
+            refine ⟨h.count.mono rfl rfl (Nat.le_refl _), h.pendIssued, h.pendK, ?_, ?_⟩
+            · intro x hx
+              simp only at hx
+              rcases settle_ids hs x hx with ⟨y, hy, h1, h2⟩ | ⟨h1, _⟩
+              · rcases h.jobIds y hy with ⟨e0, he0, h3, h4⟩ | hp'
+                · exact Or.inl ⟨e0, he0, h3.trans h1, h4.trans h2⟩
+                · exact Or.inr (h1 ▸ hp')
+              · exact Or.inr (by rw [h1]; exact List.mem_map.mpr ⟨c, hcmem, rfl⟩)
+            · intro e' he' ⟨y, hy, h1, h2⟩
+              simp only at hy
+              rcases settle_ids hs y hy with ⟨z, hz, h3, h4⟩ | ⟨h3, _⟩
+              · exact h.pendFresh e' he' ⟨z, hz, h3.trans h1, h4.trans h2⟩
+              · apply hsep c.preName (List.mem_map.mpr ⟨c, hcmem, rfl⟩)
+                rw [← h3, h1]
+                exact issued_name_mem h.count (h.pendIssued e' he')
+          split
+          · exact beginExec_readInv _ i c hc hcl hsep h1
+          · rename_i hst; simp only [hst, Bool.false_eq_true, if_false] at hcount hpn
+            exact h1.mono hcount rfl rfl rfl hpn
+
+theorem run_readInv (s : St) (evs : List Event) (hcl : ClassOK s.copies) (hsep : PreSep s.copies) (h : ReadInv s) :
+    ReadInv (run s evs).1 := by
+  induction evs generalizing s with
+  | nil => exact h
+  | cons e es ih =>
+    simp only [run]
+    refine ih _ ?_ ?_ (step_readInv s e hcl hsep h)
+    · unfold ClassOK; rw [statics_step]; exact hcl
+    · unfold PreSep; rw [preNames_step, copyNames_step]; exact hsep
 
 end I2N.Lemmas.Rules
